@@ -528,3 +528,42 @@ def c42(ctx):
     hist = ctx.gen("MC_C42H", simulate="num=%d" % n, extra=("-depth", "9"), workers=4)
     ev2 = ctx.drive("base", hist)
     ctx.judge(ctx.validate("Trace_C42", ev2, floor=0.5), hist)
+
+
+@plan("C40")
+def c40(ctx):
+    import random
+    ctx.rule = ("TLC model-checks the reference-counting design (module RC: counts equal referrers, cascading release, a "
+                "quiescent caller leaves no live object; a variant without cascading release must be refuted); the "
+                "workload is a seeded sample of the cases of 12 generator models (construction, substitution, "
+                "differentiation, polynomials, matrices, sets, solving, series, parsing, printing, serialization, C "
+                "API), every case replayed twice in a row; TLC validates that the live-object count (hook H2) is "
+                "unchanged across the repeated run of every case; crashes and (thorough tier: ASan+UBSan+LeakSanitizer "
+                "build) sanitizer reports are attributed to the case")
+    ctx.model_check("RC", cfg="RC.cfg")
+    ctx.model_check("RC", cfg="RCNeg.cfg", expect_violation=True)
+    rnd = random.Random(ctx.seed)
+    per = 400 if ctx.thorough else 90
+    rows = []
+    for mod in ["MC_C03", "MC_C10", "MC_C11", "MC_C21", "MC_C22", "MC_C24", "MC_C26", "MC_C30", "MC_C31", "MC_C17", "MC_C19", "MC_C42", "MC_C44", "MC_C37", "MC_C39"]:
+        f = ctx.gen(mod, stage=mod)
+        rs = L.read_ndjson(f)
+        rnd.shuffle(rs)
+        rows += rs[:per]
+    cases = os.path.join(ctx.dir, "workload.cases")
+    out = []
+    for r in rows:
+        for rep in (1, 2):
+            c = dict(r)
+            c.pop("id", None)
+            c["rep"] = rep
+            c["id"] = len(out) + 1
+            c["_stage"] = "workload"
+            out.append(c)
+    L.write_ndjson(cases, out)
+    cfg = "asan" if ctx.thorough else "base"
+    env = {"SEV_CASE_TIMEOUT": "60"}
+    if cfg == "asan":
+        env["ASAN_OPTIONS"] = "detect_leaks=1"
+    events = ctx.drive(cfg, cases, env=env, max_crashes=40)
+    ctx.judge(ctx.validate("Trace_C40", events, floor=0.4), cases)
